@@ -41,6 +41,8 @@ func runStatic(prog *Prog, sc StaticCheck) *StaticResult {
 		return runForbidCall(prog, sc)
 	case "struct-init":
 		return runStructInit(prog, sc)
+	case "field-unset":
+		return runFieldUnset(prog, sc)
 	case "call-order":
 		return runCallOrder(prog, sc)
 	case "import-check":
@@ -882,5 +884,94 @@ func runForbidCall(prog *Prog, sc StaticCheck) *StaticResult {
 		}
 	}
 	res.Samples = append(res.Samples, map[string]interface{}{"obligation": fmt.Sprintf("%s#calls %s and none of %s", sc.Args["func"], sc.Args["require"], sc.Args["callees"]), "backend": "call scan"})
+	return res
+}
+
+// runFieldUnset: no function of the module (tests excluded: they are not loaded) ever stores to the listed struct
+// fields — not in place, not through a composite literal, not in a fresh object. args: fields = "pkg.Type.Field,..."
+// (package name, not path). Used where another obligation treats a field as configuration that no code derives from
+// profile data: that exemption is sound only while nothing in the module assigns the field at all.
+func runFieldUnset(prog *Prog, sc StaticCheck) *StaticResult {
+	res := &StaticResult{Name: sc.Name, Kind: sc.Kind}
+	want := map[string]bool{}
+	for _, f := range strings.Split(sc.Args["fields"], ",") {
+		if f = strings.TrimSpace(f); f != "" {
+			want[f] = true
+		}
+	}
+	seenType := map[string]bool{}
+	nfn := 0
+	for fn := range ssautil.AllFunctions(prog.SSA) {
+		if fn.Blocks == nil {
+			continue
+		}
+		pk := fn.Pkg
+		for q := fn; pk == nil && q != nil; q = q.Parent() {
+			pk = q.Pkg
+		}
+		if pk == nil || !strings.HasPrefix(pk.Pkg.Path(), modPath) {
+			continue
+		}
+		nfn++
+		for _, b := range fn.Blocks {
+			for _, in := range b.Instrs {
+				fa, ok := in.(*ssa.FieldAddr)
+				if !ok {
+					continue
+				}
+				stT := fa.X.Type().Underlying().(*types.Pointer).Elem()
+				named, ok := stT.(*types.Named)
+				if !ok || named.Obj().Pkg() == nil {
+					continue
+				}
+				st := stT.Underlying().(*types.Struct)
+				key := named.Obj().Pkg().Name() + "." + named.Obj().Name() + "." + st.Field(fa.Field).Name()
+				seenType[named.Obj().Pkg().Name()+"."+named.Obj().Name()] = true
+				if !want[key] {
+					continue
+				}
+				for _, r := range *fa.Referrers() {
+					if stw, ok := r.(*ssa.Store); ok && stw.Addr == fa {
+						res.Failures = append(res.Failures, fmt.Sprintf("%s assigns %s at %s", fn.String(), key, posOf(prog, stw.Pos())))
+					}
+				}
+			}
+		}
+	}
+	for k := range want {
+		res.Obligations++
+		tn := k[:strings.LastIndex(k, ".")]
+		found := false
+		// binding: the type and the field must exist
+		for _, p := range prog.SSA.AllPackages() {
+			if p.Pkg.Name() != strings.SplitN(tn, ".", 2)[0] {
+				continue
+			}
+			if o := p.Pkg.Scope().Lookup(strings.SplitN(tn, ".", 2)[1]); o != nil {
+				if st, ok := o.Type().Underlying().(*types.Struct); ok {
+					for i := 0; i < st.NumFields(); i++ {
+						if st.Field(i).Name() == k[strings.LastIndex(k, ".")+1:] {
+							found = true
+						}
+					}
+				}
+			}
+		}
+		if !found {
+			res.Failures = append(res.Failures, "binding: no such field "+k+" (stale clause)")
+			continue
+		}
+		bad := false
+		for _, f := range res.Failures {
+			if strings.Contains(f, " assigns "+k+" ") {
+				bad = true
+			}
+		}
+		if !bad {
+			res.Discharged++
+		}
+	}
+	_ = seenType
+	res.Samples = append(res.Samples, map[string]interface{}{"obligation": "no function of the module stores to " + sc.Args["fields"], "backend": "static store scan", "functions": nfn})
 	return res
 }
